@@ -82,8 +82,16 @@ def cmd_check(prop, tier, seed):
               f"{tot['errors'][0]}", file=sys.stderr)
         return 2
     if tot["det_mismatch"]:
-        print(f"HARNESS-ERROR: {len(tot['det_mismatch'])} determinism mismatch(es)", file=sys.stderr)
-        return 2
+        # the same scenario gave two different event logs in one process.  With violations on the table the
+        # likeliest cause is state the code under test keeps across runs (class-level or module-level data):
+        # the violations stand (each replay file is re-run in a fresh process by --replay); without any
+        # violation it is a problem of the machinery and the run is not believed.
+        if rc == 1:
+            print(f"NOTE: {len(tot['det_mismatch'])} of {tot['det_checked']} double runs differed - the code under test "
+                  f"appears to keep state across runs in one process")
+        else:
+            print(f"HARNESS-ERROR: {len(tot['det_mismatch'])} determinism mismatch(es)", file=sys.stderr)
+            return 2
     if tot["n"] == 0 or tot["evals"] == 0:
         print("HARNESS-ERROR: nothing was evaluated", file=sys.stderr)
         return 2
